@@ -5,7 +5,7 @@ import numpy as np
 
 from .. import core, gen
 
-RULE = ("int16 series of 5..400 observations (quick to 72) with mark spacings regular 5/8/10/16 days and irregular, contiguous labelings "
+RULE = ("int16 series of 5..400 observations (quick to 72) with mark spacings regular 5/8/10/16 days and irregular, contiguous labelings (label ids ascending, wrapping around like period-of-year numbers, descending) "
         "(dekads, pentads, months), total daily length up to ~4000 (quick ~1200). Correspondence: compiled tinterpolate vs Lean model at "
         "Float (bit level on the period means, band equal) and, for short cases, vs the model at Rat (exact curve). Oracle on the real code: "
         "constant series -> that constant everywhere; series linear in day number -> exact period means of the line (rounded); template and "
@@ -26,8 +26,20 @@ def layout(rng, nobs):
     kind = rng.choice(["dekad", "pentad", "month"])
     length = {"dekad": 10, "pentad": 5, "month": 30}[kind]
     start = rng.randint(0, length - 1)
-    labels = np.array([(i + start) // length for i in range(ndays)], dtype="int32")
-    return marks, template, labels, kind
+    runs = [(i + start) // length for i in range(ndays)]
+    nruns = runs[-1] + 1
+    # the label VALUES only have to be equal within a period and distinct between periods: running ids, period-of-year ids that
+    # wrap around at New Year (..., 35, 36, 1, 2, ...), descending ids
+    style = rng.choice(["ascending", "ascending", "wrap", "descending"])
+    if style == "wrap" and nruns > 1:
+        off = rng.randint(1, nruns - 1)
+        ids = [(r + off) % nruns + 1 for r in range(nruns)]
+    elif style == "descending":
+        ids = [5000 - r for r in range(nruns)]
+    else:
+        ids = list(range(nruns))
+    labels = np.array([ids[r] for r in runs], dtype="int32")
+    return marks, template, labels, kind + "/" + style
 
 
 def run(ctx: core.Ctx):
